@@ -220,7 +220,7 @@ func (e *Exec) resolveAssign(st *State, fn *ssa.Function, params map[string]Valu
 		// position, its length, the point where a writer starts failing and the terminal errors never change
 		only := []string{"ghost:" + fam + ".pos"}
 		if fam != "rd" {
-			only = []string{"ghost:" + fam + ".data", "ghost:" + fam + ".len"}
+			only = []string{"ghost:" + fam + ".data", "ghost:" + fam + ".len", "ghost:" + fam + ".flushed"}
 		}
 		return assignEntry{prefix: "ghost:" + fam + ".", ref: streamRef(val), text: path, only: only}
 	}
@@ -271,6 +271,9 @@ func (e *Exec) resolveAssign(st *State, fn *ssa.Function, params map[string]Valu
 	if elems {
 		switch x := cur.(type) {
 		case *SliceV:
+			if k, obj, ok := embOf(x.Arr); ok { // a view of an array field: the field's own component
+				return assignEntry{only: []string{k}, prefix: k, ref: obj, text: path + "[*]", off: x.Off, n: x.Len}
+			}
 			return assignEntry{prefix: elemKey(x.Elem), ref: x.Arr, text: path + "[*]", off: x.Off, n: x.Len}
 		case *PtrV:
 			l := e.locOf(x)
@@ -345,6 +348,10 @@ func (e *Exec) frameCheckCond(st *State, fr *Frame, cond *Term, l Loc, pos token
 		e.note("FRAME NOT CHECKED for " + e.topSpec.Target + " (declared noframe: only its other clauses are verified; nothing may call it by contract)")
 		return
 	}
+	if k, obj, ok := embOf(l.Idx[0]); ok {
+		// an element of an array field: the location written is the field itself
+		l = Loc{Key: k, Idx: []*Term{obj}, T: l.T}
+	}
 	ref := l.Idx[0]
 	if ref.Op == "ref" {
 		return
@@ -387,6 +394,11 @@ func (e *Exec) frameCheckAppend(st *State, fr *Frame, arr Loc, owner *Loc, pos t
 			}
 		}
 		return out, false
+	}
+	if k, obj, ok := embOf(arr.Idx[0]); ok {
+		// the spare capacity of a view of an array field is the field itself
+		arr = Loc{Key: k, Idx: []*Term{obj}, T: arr.T}
+		owner = nil
 	}
 	ref := arr.Idx[0]
 	if ref.Op == "ref" {
@@ -471,8 +483,9 @@ func (e *Exec) callContract(st *State, fr *Frame, sp *FnSpec, fn *ssa.Function, 
 	}
 	for _, a := range sp.Assigns {
 		ae := e.resolveAssign(pre, fn, params, a)
-		// the callee's frame must be inside the caller's
-		if ae.ref != nil {
+		// the callee's frame must be inside the caller's (its ghost call counters are its own: they are only made
+		// arbitrary here, so that what its postconditions say about them constrains nothing of the caller's)
+		if ae.ref != nil && a != "ghost.calls" {
 			if len(ae.only) > 0 {
 				for _, k := range ae.only {
 					e.frameCheck(st, fr, Loc{Key: k, Idx: []*Term{ae.ref}}, pos)
@@ -661,6 +674,8 @@ func (e *Exec) VerifyFunction(sp *FnSpec, prop string) (err error) {
 	e.paths = 0
 	e.specForks = 0
 	e.genStart = time.Now()
+	// (a function abandoned in the middle of a specification or discovery pass must not leave its mode behind)
+	e.specMode, e.discovery, e.oldState = 0, 0, nil
 	if os.Getenv("GOVC_PATHSTAT") != "" {
 		defer func() {
 			fmt.Fprintf(os.Stderr, "PATHSTAT %s paths=%d specforks=%d\n", fnName(fn), e.paths, e.specForks)
@@ -981,49 +996,22 @@ func (e *Exec) chanRecv(st *State, fr *Frame, x *ssa.UnOp, ch Value) Value {
 	return True
 }
 
-// sliceEmbeddedArray: c.field[:] where field is an array stored by value inside an object. The slice is modelled as a
-// view of a copy: reads see the current contents; copy() into it is written back by the copy model; any other use that
-// could write through it is outside the subset.
+// sliceEmbeddedArray: c.field[:] where field is an array stored by value inside an object: a view of the field's own
+// heap component (see embArr).
 func (e *Exec) sliceEmbeddedArray(st *State, fr *Frame, a *PtrV, x *ssa.Slice, get func(ssa.Value, *Term) *Term) Value {
 	l := e.locOf(a)
 	at, ok := l.T.Underlying().(*types.Array)
 	if !ok {
 		panic(unsupported("slicing a non-array object"))
 	}
-	// the view is only sound for uses that cannot write through it unnoticed: source or destination of copy()
-	// (a destination is written back into the field by the copy model) and re-slicing/indexing for reads
-	if refs := x.Referrers(); refs != nil {
-		for _, r := range *refs {
-			ok := false
-			switch u := r.(type) {
-			case *ssa.Call:
-				if b, isB := u.Call.Value.(*ssa.Builtin); isB && (b.Name() == "copy" || b.Name() == "len") {
-					ok = true
-				}
-			case *ssa.DebugRef:
-				ok = true
-			case *ssa.IndexAddr:
-				ok = true
-				if rr := u.Referrers(); rr != nil {
-					for _, w := range *rr {
-						if s, isS := w.(*ssa.Store); isS && s.Addr == u {
-							ok = false
-						}
-					}
-				}
-			}
-			if !ok && e.specMode == 0 {
-				panic(unsupported("a slice of the array field " + l.Key + " escapes (only copy() and indexed reads of such a slice are modelled)"))
-			}
-		}
+	if len(components(at.Elem())) != 1 {
+		panic(unsupported("slicing an array field with non-scalar elements"))
 	}
-	av := st.LoadLoc(l).(*ArrV)
+	e.nilCheck(st, fr, a, x.Pos())
 	n := BVConst(uint64(at.Len()), 64)
-	lo, hi := get(x.Low, BVConst(0, 64)), get(x.High, n)
-	e.oblige(st, fr, "safe.slice", x.Pos(), And(BVUle(lo, hi), BVUle(hi, n)))
-	sl := e.newSlice(st, at.Elem(), n, n)
-	st.setArrayOf(at.Elem(), comp{"", scalarSort(at.Elem())}, sl.Arr, av.Data)
-	return &SliceV{Arr: sl.Arr, Off: lo, Len: BVSub(hi, lo), Cap: BVSub(n, lo), Elem: at.Elem()}
+	lo, hi, mx := get(x.Low, BVConst(0, 64)), get(x.High, n), get(x.Max, n)
+	e.oblige(st, fr, "safe.slice", x.Pos(), And(BVUle(lo, hi), BVUle(hi, mx), BVUle(mx, n)))
+	return &SliceV{Arr: embArr(l.Key+".adata", l.Idx[0]), Off: lo, Len: BVSub(hi, lo), Cap: BVSub(mx, lo), Elem: at.Elem()}
 }
 
 func dbgDepth() int {
